@@ -115,16 +115,35 @@ fn render(abs: bool, comps: &[&str], sep: impl Fn(usize) -> char) -> String {
 
 /// Every path of 1..=4 components over {a,b,c}, shortest first.
 fn small_paths() -> Vec<Vec<&'static str>> {
+    paths_over(&["a", "b", "c"], 4)
+}
+
+fn paths_over(pool: &'static [&'static str], depth: usize) -> Vec<Vec<&'static str>> {
     let mut all: Vec<Vec<&'static str>> = vec![];
     let mut level: Vec<Vec<&'static str>> = vec![vec![]];
-    for _ in 0..4 {
+    for _ in 0..depth {
         level = level
             .iter()
-            .flat_map(|p| ["a", "b", "c"].into_iter().map(move |c| [p.as_slice(), &[c]].concat()))
+            .flat_map(|p| pool.iter().map(move |c| [p.as_slice(), &[*c]].concat()))
             .collect();
         all.extend(level.iter().cloned());
     }
     all
+}
+
+/// Names that are different components although they look alike: letter case, composed and
+/// decomposed accents. 84 x 84 paths of 1..3 components x {absolute, relative} x {'/', '\\'}.
+fn exhaustive_lookalikes(_t: Tier) -> Box<dyn Iterator<Item = Case>> {
+    let paths = paths_over(&["a", "A", "é", "e\u{301}"], 3);
+    let mut pairs: Vec<(usize, usize)> = (0..paths.len()).flat_map(|b| (0..paths.len()).map(move |t| (b, t))).collect();
+    pairs.sort_by_key(|&(b, t)| paths[b].len() + paths[t].len());
+    Box::new(pairs.into_iter().flat_map(move |(b, t)| {
+        let (base, target) = (paths[b].clone(), paths[t].clone());
+        [(true, '/'), (false, '/'), (true, '\\'), (false, '\\')].into_iter().map(move |(abs, sep)| Case {
+            base: render(abs, &base, |_| sep),
+            target: render(abs, &target, |_| sep),
+        })
+    }))
 }
 
 /// 120 base paths x 120 target paths x {absolute, relative} x {'/', '\\'} = 57 600 pairs,
@@ -146,7 +165,7 @@ fn exhaustive(_t: Tier) -> Box<dyn Iterator<Item = Case>> {
 /// Pairs of 1..=6 components from a six-name pool, every separator (the leading one too) drawn
 /// independently; half of the pairs are built around a shared prefix of 1..=3 components.
 fn random(_t: Tier) -> BoxedStrategy<Case> {
-    let name = || select(vec!["a", "b", "c", "d", "x.js", "y.map", "ab", "a.js", "x", "x.j"]);
+    let name = || select(vec!["a", "b", "c", "d", "x.js", "y.map", "ab", "a.js", "x", "x.j", "A", "X.JS", "é", "e\u{301}", "a."]);
     let independent = (vec(name(), 1..=6), vec(name(), 1..=6));
     let related = (vec(name(), 1..=3), vec(name(), 0..=5), vec(name(), 0..=3)).prop_map(|(shared, b, t)| {
         let mut base = [shared.clone(), b].concat();
@@ -184,6 +203,7 @@ fn subs() -> Vec<Sub> {
     };
     vec![
         exhaustive,
+        enum_sub("exhaustive_lookalikes", exhaustive_lookalikes, check),
         gen_sub("random", random, |t| t.pick(300_000, 1_000_000), check),
     ]
 }
